@@ -252,6 +252,16 @@ def enum_units(tier, seed):
                 for ctx in ("root", "block"):
                     wrap = body if ctx == "root" else [{"k": "block", "b": body}]
                     cases.append({"rom": "low", "files": {}, "ir": [{"k": "org", "a": org_1}] + wrap})
+    # a named scope written in two pieces: the first piece gives a name one value (a := constant, or a label in bank 00), the
+    # second piece, further down, defines the same name as a label of another width class; `scope.name` between the pieces
+    for first in ("const", "label"):
+        for ref in (lda(["id", "sc_p.lb_q"]), {"k": "ins", "m": "sta", "shape": ["", None, "x"], "sfx": "", "e": ["id", "sc_p.lb_q"]},
+                    {"k": "ins", "m": "lda", "shape": ["", None, None], "sfx": "l", "e": ["id", "sc_p.lb_q"]}):
+            p1 = [{"k": "const", "n": "lb_q", "e": L(0x12), "eager": True}] if first == "const" else [{"k": "label", "n": "lb_q"}, db(1)]
+            body = [{"k": "scope", "n": "sc_p", "b": p1}, ref] + sp("lb_mid") + [{"k": "org", "a": 0x018000}, {"k": "scope", "n": "sc_p", "b": [db(2), {"k": "label", "n": "lb_q"}, db(3)]}] + sp("lb_end")
+            for ctx in ("root", "block"):
+                wrap = body if ctx == "root" else [{"k": "block", "b": body}]
+                cases.append({"rom": "low", "files": {}, "ir": [{"k": "org", "a": 0x008000}] + wrap})
     return {"units": [{"cases": cases}], "exhaustive": False}
 
 
